@@ -41,8 +41,8 @@ def main():
     sec.append("All numbers below are produced by `tools/final_validation.sh` on the committed tree (logs under `/verif/validation/`).\n")
     sec.append(f"* **Determinism audit** (`tools/audit_determinism.sh quick 3`: 11 campaigns x 3 seeds x 4 processes with 16, 3, 7 and 16 workers; the campaign fingerprint covers every non-trivial run fingerprint, every counter, the tick total and every violation): {audit_line}.")
     sec.append(f"* **No alarm on the unchanged tree, other seeds** (`tools/seed_sweep.sh`): quick tier — {sq_line}; thorough tier — {st_line}. Together with the default seed this is every claimed check at 25 seeds (quick) and 3 seeds (thorough) without a single VIOLATION line.")
-    sec.append(f"* **Sensitivity** — {total} property-breaking changes seeded by fresh sub-agents that saw only the property text and their own scratch worktree (three rounds: free choice; other mechanisms / implicit solvers / cooperating sites; history-dependent). Every change was confirmed independently (`tools/confirm_mutants.sh`: the 42-test suite passes with it, its demonstration fails with it and passes without it) and then run against every claimed check's quick tier (`tools/mutant_matrix.sh`: `git -C /repo apply`, run, `git -C /repo checkout -- .`). Result: **{caught}/{total} caught, {own}/{total} by the check of the property the seeder was asked to break.**")
-    sec.append("  Seven changes were missed by the first version of the checks and led to strengthening (recorded in the commit history of /verif): runs with `first_step` in C08 and C06 (C08B, C06E), absolute scales near the code's constants and first-attempt/RK4 clauses on the RHS seam in C11 (C11A, C11B), RK4 steps that do not divide the interval in the base generator (C05B/C06B/C19B were first caught only by C03), a step-end cross-check in C05 that does not go through the dense output, `min_step` in C03 (C03C), intervals of a few ulps at large |x0| and a tightened stopping-point rule in C05 (C05D), landing near a small |xend| and library panics after the run in C06 (C06C).\n")
+    sec.append(f"* **Sensitivity** — {total} property-breaking changes seeded by fresh sub-agents that saw only the property text and their own scratch worktree (five rounds: free choice; other mechanisms / implicit solvers / cooperating sites; history-dependent; option interactions; one component each with all eleven property texts). Every change was confirmed independently (`tools/confirm_mutants.sh`: the 42-test suite passes with it, its demonstration fails with it and passes without it) and then run against every claimed check's quick tier (`tools/mutant_matrix.sh`: `git -C /repo apply`, run, `git -C /repo checkout -- .`). Result: **{caught}/{total} caught, {own}/{total} by the check of the property the seeder was asked to break.**")
+    sec.append("  Eleven changes were missed by the checks as they stood when the change arrived; each miss led to a strengthening of generators or oracles (recorded in the commit history of /verif), after which the whole set was re-run: runs with `first_step` in C08 and C06 (C08B, C06E); absolute scales near the code's constants and first-attempt / RK4 clauses on the RHS seam in C11 (C11A, C11B); RK4 steps that do not divide the interval in the base generator (C05B/C06B/C19B were first caught only by C03); a step-end cross-check in C05 that does not go through the dense output; `min_step` in C03 (C03C); intervals of a few ulps at large |x0| and a tightened stopping-point rule in C05 (C05D); landing near a small |xend| and library panics after the run in C06 (C06C); terminal events in C08 (C08G, first caught only by C10); `ControlFlag::XOut` and the low-level `dense_output` switch in the simulated SolOut's schedule (C18G, R5radauB) - the last extension also exposed a genuine defect of the unchanged tree (F28). Some seeded changes are independent rediscoveries of one mechanism (C05B = C06B = C19B; R5bdfA = C03C; R5erkB = C03A), which is itself evidence that the seeders converge on the plausible mistakes.\n")
     sec.append("| seeded change | asked to break | what it needs to manifest | checks that fire (quick tier) |")
     sec.append("|---|---|---|---|")
     sec.extend(rows)
